@@ -112,7 +112,7 @@ fn stage(i: &Input, c: &mut Case) -> Result<(), String> {
 pub const STAGES: &[Stage] = &[Stage { name: "fixpoint", f: stage }];
 
 pub fn run(rc: &mut RunCtx) {
-    rc.run_pt(STAGES[0], rc.pick(200_000, 4_000_000), (96, 500));
+    rc.run_pt(STAGES[0], rc.pick(800_000, 4_000_000), (96, 500));
     rc.require_label("fixpoint", "mutated_accepted", 30_000);
     rc.require_label("fixpoint", "input_noncanonical", 100_000);
     rc.require_label("fixpoint", "payload_16K_boundary", 20_000);
